@@ -165,7 +165,8 @@ def r2_getr(ctx):
         u = unfn(new)
         if not (u and u[0] in ("clip", "min", "max")):
             break
-        inner = [a for a in u[1] if isinstance(a, F.Rat) and a.depends_on(r0name)]
+        phinames = {symname(s_) for s_, _ in phis}
+        inner = [a for a in u[1] if isinstance(a, F.Rat) and symbols(a) & phinames]
         if len(inner) != 1:
             break
         bounds += [a for a in u[1] if a is not inner[0] and isinstance(a, F.Rat) and symname(a) != "None" and not a.is_const()]
@@ -218,10 +219,14 @@ def r2_getr(ctx):
         if not (ua and ua[0] == "abs" and len(ua[1]) == 1):
             return False
         d = ua[1][0]
-        for dd in (d, d.subs(shift)):
-            if same(dd, delta) or same(dd, -delta):
-                return True
-        return False
+        if same(d, delta) or same(d, -delta):
+            return True
+        try:
+            # a test made before the update sees the values the previous pass left: (r, r_old) = (T(x), x)
+            dd = d.subs(shift)
+        except Unsupported:
+            return False
+        return same(dd, delta) or same(dd, -delta)
 
     def is_tol(b):
         if not rat(b) or b.is_zero():
@@ -406,13 +411,16 @@ def r4_order_stats(ctx):
         inv = None        # the root as a function of the returned quantity
         for q in rooted:
             names, core = peel(q.value)
-            if same(core, rec["X"]):
-                k = unknown_sym
-            elif same(core, 1 - rec["X"]):
-                k = 1 - unknown_sym
-            else:
-                ctx.error(f"order_stats('{letter}'): result is not the root or its complement", q.node, repr(q.value))
+            # the result is an affine function of the root (the root itself, or its complement 1 - root): invert it
+            try:
+                al = core.diff(xn)
+                be = core - al * rec["X"]
+            except Unsupported:
+                al = be = None
+            if al is None or not al.is_const() or al.is_zero() or xn in symbols(be):
+                ctx.error(f"order_stats('{letter}'): result is not an affine function of the root", q.node, repr(q.value))
                 return None
+            k = (unknown_sym - be) / al
             if inv is not None and not same(inv, k):
                 ctx.error(f"order_stats('{letter}'): paths disagree on the result", q.node, repr(q.value))
                 return None
@@ -502,6 +510,10 @@ def r5_brackets(ctx):
             ctx.error("brentq call shape", call, ast.unparse(call))
             continue
         variable = [e for e in ends if const_value(e[1]) is None]
+        misplaced = [w for w, v, _ in ends if W.function(symname(v)) is not None]
+        if misplaced or (rat(rec["vals"].get("f")) and const_value(rec["vals"]["f"]) is not None):
+            ctx.fail("order_stats: brentq(f, a, b) is given the residual function first and the two bracket ends after it", call, ast.unparse(call))
+            continue
         for w, v, dom in ends:
             if const_value(v) is not None:
                 ctx.check(const_value(v) == dom, f"order_stats: literal {w} bracket end is the end of the probability domain (0, 1)", call, float(const_value(v)))
